@@ -514,6 +514,24 @@ func c19Verdicts(a *ChildArgs, r *rand.Rand, avoid map[string]bool, dir string) 
 	check("validate-output-file", append([]string{"validate", "-o", "validate-report.txt"}, names...), &allOK, judged)
 	os.Remove(filepath.Join(dir, "lint-report.txt"))
 	os.Remove(filepath.Join(dir, "validate-report.txt"))
+	// an input that does not exist is an input the library cannot accept, alone or next to good ones
+	no := false
+	for _, c := range [][]string{{"validate"}, {"format"}, {"format", "--check"}, {"lint"}} {
+		check(strings.Join(c, "")+"-missing-input", append(append(append([]string{}, c...), names...), "no-such-input.sql"), &no, judged)
+	}
+	// the same inputs found by recursion: copies below a directory, two levels deep
+	rdir := filepath.Join(dir, "rdir")
+	os.MkdirAll(filepath.Join(rdir, "deep", "deeper"), 0o755)
+	for i, f := range judged {
+		sub := []string{"", "deep", filepath.Join("deep", "deeper")}[i%3]
+		os.WriteFile(filepath.Join(rdir, sub, fmt.Sprintf("r%d.sql", i)), []byte(f.content), 0o644)
+	}
+	check("lint-recursive", []string{"lint", "-r", "rdir"}, &lz, judged)
+	check("validate-recursive", []string{"validate", "-r", "rdir"}, &allOK, judged)
+	check("lint-recursive-missing-dir", []string{"lint", "-r", "rdir", "no-such-dir"}, &no, judged)
+	check("lint-recursive-only-missing-dir", []string{"lint", "-r", "no-such-dir"}, &no, judged)
+	check("validate-recursive-missing-dir", []string{"validate", "-r", "rdir", "no-such-dir"}, &no, judged)
+	os.RemoveAll(rdir)
 }
 
 // c19Streams: the same verdicts when the input arrives on stdin or as an inline argument, and for odd option values.
